@@ -1,7 +1,7 @@
 (** Correspondence check for C10, evaluated by [vm_compute] on the cases the Go
     harness wrote (real fabio outputs next to the inputs that produced them). *)
 From Coq Require Import List NArith Bool.
-From Fabio Require Import Lib.Outcome Lib.Bytes Lib.Verdict Model.ClientHello.
+From Fabio Require Import Lib.Outcome Lib.Bytes Lib.Verdict Model.ClientHello Model.SniServe.
 Import ListNotations.
 Local Open Scope N_scope.
 
@@ -87,7 +87,11 @@ Inductive case :=
 | CTrunc (stream : str) (k : N) (full : outcome str) (fulln : option N) (cut : outcome str)
 (* a hello spread over two TLS records: never routed (the buffering clause of the property
    forbids reading beyond the first record) *)
-| CFrag (stream : str) (impl : outcome str) (tls : option str).
+| CFrag (stream : str) (impl : outcome str) (tls : option str)
+(* ServeTCP's decision (Model.SniServe.sni_serve) on a stream, observed as CStream observes it
+   (Panic = ServeTCP itself panicked, anywhere between Peek and Lookup); used for the streams
+   that are too small to be a ClientHello and the smallest ones that are *)
+| CServe (stream : str) (impl : outcome str) (consumed : option N) (tls : option str).
 
 Definition route_model (stream : str) : outcome str * option N :=
   match sni_route_name stream with
@@ -104,6 +108,19 @@ Definition route_model (stream : str) : outcome str * option N :=
    asks for.  [off]: where the handshake message starts (0, or 5 behind a record header). *)
 Definition sid_too_long (off : nat) (msg : list N) : bool :=
   match nth_error msg (off + 38) with Some l => 32 <? l | None => false end.
+
+Definition serve_model (stream : str) : outcome str * option N :=
+  match sni_serve stream with
+  | Ok Dropped => (Err 0, None)
+  | Ok (Routed n h) => (Ok h, Some n)
+  | Err k => (Err (100 + k), None)         (* never: C10_sni_serve_decides *)
+  | Panic => (Panic, None)
+  end.
+
+(* too small to be a ClientHello (C10_short_stream_dropped / C10_short_hello_dropped) *)
+Definition too_small (stream : str) : bool :=
+  (nlen stream <? 9 + min_hello_body)
+  || match u24 stream 6 with Ok hl => hl <? min_hello_body | _ => false end.
 
 Definition check_case (c : case) : N :=
   match c with
@@ -187,4 +204,22 @@ Definition check_case (c : case) : N :=
       let same := out_eqb beq impl m in
       let spec := match impl with Err _ => true | _ => false end in
       verdict same spec None (match tls with Some (_ :: _) => true | _ => false end)
+  | CServe stream impl consumed tls =>
+      let '(m, mc) := serve_model stream in
+      let same := out_eqb beq impl m && opt_eqb N.eqb consumed mc in
+      (* never a crash; what is too small to be a ClientHello is dropped; otherwise as CStream *)
+      let spec := match impl with
+                  | Panic => false
+                  | Ok n => negb (too_small stream)
+                            && match tls with Some t => beq n t | None => true end
+                            && match consumed, u16 stream 3 with
+                               | Some c, Ok rl => (c <=? rl + 5) && (c <=? nlen stream)
+                               | _, _ => false
+                               end
+                  | Err _ => match tls with Some (_ :: _) => sid_too_long 5 stream | _ => true end
+                  end in
+      (* non-trivial: the whole path ran (a size was computed and that many bytes were there) *)
+      verdict same spec None
+        (match client_hello_buffer_size (firstn 9 stream) with
+         | Ok n => n <=? nlen stream | _ => false end)
   end.
